@@ -1,6 +1,7 @@
 import GeoVerif.Model.GridCodes
 import GeoVerif.Proofs.F64Round
 import GeoVerif.Proofs.Digits
+import GeoVerif.Proofs.GeohashBits
 import GeoVerif.Props.C16
 /-!
 # C18 — property theorems (grid codes), integer level
@@ -558,6 +559,36 @@ theorem gars_decode_encode (X Y : Int) (hX : 0 ≤ X ∧ X < 360 * GARS.m) (hY :
 
 example : (match GARS.decodeInt (toBytes (GARS.encodeInt 2167 1085 2)) true with
     | .ok d => decide (d = ⟨2 * (1085 - 1080) + 1, 2 * (2167 - 2160) + 1, 24, 2⟩) | .error _ => false) = true := by decide
+
+/-- **`decode_encode_int`, Geohash** (every cell, every length `≤ 18`): decoding the hash of `(ulon, ulat)` returns
+the length and the top `⌈5·len/2⌉` bits of `ulon` and the top `⌊5·len/2⌋` bits of `ulat` (as 46-bit numbers) -/
+theorem geohash_decode_encode (ulon ulat len : Nat) (hlen : len ≤ 18) :
+    Geohash.decodeInt (toBytes (Geohash.encodeInt ulon ulat len)) =
+      .ok ⟨ulon / 2 ^ (46 - (5 * len + 1) / 2) % 2 ^ ((5 * len + 1) / 2),
+           ulat / 2 ^ (46 - 5 * len / 2) % 2 ^ (5 * len / 2), len⟩ := by
+  obtain ⟨h1, h2⟩ := GeohashBits.go_encodeInt ulon ulat len hlen
+  unfold Geohash.decodeInt
+  have hmin : min Geohash.maxlen (toBytes (Geohash.encodeInt ulon ulat len)).length = len := by
+    rw [h1]; show min 18 len = len
+    omega
+  simp only [hmin]
+  rw [List.take_of_length_le (by rw [h1]), h2]
+  rfl
+
+/-- for 46-bit cell coordinates the decoded numbers are plain right shifts -/
+theorem geohash_decode_encode46 (ulon ulat len : Nat) (hlen : len ≤ 18) (h1 : ulon < 2 ^ 46) (h2 : ulat < 2 ^ 46) :
+    Geohash.decodeInt (toBytes (Geohash.encodeInt ulon ulat len)) =
+      .ok ⟨ulon >>> (46 - (5 * len + 1) / 2), ulat >>> (46 - 5 * len / 2), len⟩ := by
+  rw [geohash_decode_encode ulon ulat len hlen, Nat.shiftRight_eq_div_pow, Nat.shiftRight_eq_div_pow]
+  have key : ∀ u k : Nat, u < 2 ^ 46 → k ≤ 46 → u / 2 ^ (46 - k) % 2 ^ k = u / 2 ^ (46 - k) := by
+    intro u k hu hk
+    apply Nat.mod_eq_of_lt
+    rw [Nat.div_lt_iff_lt_mul (Nat.pos_of_ne_zero (by simp))]
+    rw [← Nat.pow_add, show k + (46 - k) = 46 by omega]; exact hu
+  rw [key ulon _ h1 (by omega), key ulat _ h2 (by omega)]
+
+example : (match Geohash.decodeInt (toBytes (Geohash.encodeInt (2^45 + 12345678901) (2^45 + 333) 7)) with
+    | .ok d => decide (d = ⟨(2^45 + 12345678901) >>> 28, (2^45 + 333) >>> 29, 7⟩) | .error _ => false) = true := by decide
 
 /-! ### non-vacuity: concrete codes -/
 example : String.ofList (GARS.encodeInt (4320 / 2 + 7) (2160 / 2 + 5) 2) = "362HN12" := by decide
